@@ -4,6 +4,7 @@ import (
 	"fmt"
 	"go/token"
 	"go/types"
+	"os"
 	"reflect"
 	"regexp"
 	"strings"
@@ -273,14 +274,42 @@ func runC04CacheRule(c *Ctx, rule string) {
 			if e.Kind != "store-cell" || !strings.Contains(keyOf(e.Args[0]), "makeslice") {
 				continue
 			}
+			if os.Getenv("PGV_DBG") != "" {
+				fmt.Printf("DBG store-cell %s := %s (%T)\n", keyOf(e.Args[0]), keyOf(e.Args[1]), e.Args[1])
+			}
 			sv, ok := e.Args[1].(StructVal)
+			cellKey := keyOf(e.Args[0])
 			if !ok {
-				continue
+				// filled in place, field by field (info := &infos[i]; info.export = ...): the stores into the
+				// fields of one element are judged together once its last field (in declaration-independent
+				// order: whichever comes last on the path) has been written — here: at the store of "offset",
+				// with the other fields looked up among the path's earlier and later stores
+				if j := strings.LastIndex(cellKey, "]."); j < 0 || cellKey[j+2:] != "offset" {
+					continue
+				}
+				elem := cellKey[:strings.LastIndex(cellKey, "].")+1]
+				fields := map[string]AVal{}
+				for _, e2 := range t.Events {
+					if e2.Kind == "store-cell" && strings.HasPrefix(keyOf(e2.Args[0]), elem+".") {
+						fields[strings.TrimPrefix(keyOf(e2.Args[0]), elem+".")] = e2.Args[1]
+					}
+				}
+				st := structOfElem(fn, "fieldInfos")
+				if st == nil {
+					continue
+				}
+				sv = StructVal{T: st, F: map[int]AVal{}}
+				for i := 0; i < structOf(st).NumFields(); i++ {
+					if fv, ok := fields[structOf(st).Field(i).Name()]; ok {
+						sv.F[i] = fv
+					}
+				}
+				cellKey = elem
 			}
 			stores++
 			idxKey := ""
-			if i := strings.LastIndex(keyOf(e.Args[0]), "["); i >= 0 {
-				idxKey = strings.TrimSuffix(keyOf(e.Args[0])[i+1:], "]")
+			if i := strings.LastIndex(cellKey, "["); i >= 0 {
+				idxKey = strings.TrimSuffix(cellKey[i+1:], "]")
 			}
 			fieldExpr := "ty.Field(" + idxKey + ")"
 			// time.Time fields are not stored
@@ -311,6 +340,26 @@ func runC04CacheRule(c *Ctx, rule string) {
 		}
 	}
 	c.Check(len(bad) == 0 && stores > 0, rule, fnName(fn), "analysis", fn.Pos(), fmt.Sprintf("%d recording paths: time.Time skipped, export = IsExported(name), offset = index", stores), uniqJoin(append(bad, fmt.Sprintf("%d recording paths", stores)), 3))
+}
+
+// structOfElem: the element type of the slice field `field` of the struct the function returns.
+func structOfElem(fn *ssa.Function, field string) types.Type {
+	res := fn.Signature.Results()
+	if res.Len() == 0 {
+		return nil
+	}
+	st := structOf(res.At(0).Type())
+	if st == nil {
+		return nil
+	}
+	for i := 0; i < st.NumFields(); i++ {
+		if st.Field(i).Name() == field {
+			if sl, ok := st.Field(i).Type().Underlying().(*types.Slice); ok {
+				return sl.Elem()
+			}
+		}
+	}
+	return nil
 }
 
 func runC04Who(c *Ctx) {
@@ -427,6 +476,31 @@ func structOf(t types.Type) *types.Struct {
 // its loop is left only on the edge where Kind() == Ptr is false, and each iteration replaces
 // the value by its Elem(). A second exit (e.g. "&& !IsNil()") returns a nil pointer of kind Ptr,
 // which the walkers report as "is not struct" under exist.
+// isZeroReflectValue: reflect.Value{} — a nil-valued constant of that type, or the load of a local that is
+// never stored to.
+func isZeroReflectValue(v ssa.Value) bool {
+	if !isNamed(v.Type(), "reflect", "Value") {
+		return false
+	}
+	if c, ok := v.(*ssa.Const); ok {
+		return c.Value == nil
+	}
+	if u, ok := v.(*ssa.UnOp); ok && u.Op == token.MUL {
+		if al, ok := u.X.(*ssa.Alloc); ok {
+			for _, r := range refs(al) {
+				if _, isStore := r.(*ssa.Store); isStore {
+					return false
+				}
+				if _, isLoad := r.(*ssa.UnOp); !isLoad {
+					return false
+				}
+			}
+			return true
+		}
+	}
+	return false
+}
+
 func runC04Strip(c *Ctx, rule string) {
 	p := c.P
 	c.Rule(rule, "RemoveValuePtr / RemoveTypePtr return a non-pointer: the stripping loop exits only where Kind() == Ptr is false and steps with Elem()", 2)
@@ -481,6 +555,7 @@ func runC04Strip(c *Ctx, rule string) {
 			c.Unk(rule, fnName(fn), "strip", fn.Pos(), "loop-carried value not found")
 			continue
 		}
+		zeroExit := map[*ssa.BasicBlock]bool{}
 		for _, ee := range l.exitEdges() {
 			iff, ok := ee[0].Instrs[len(ee[0].Instrs)-1].(*ssa.If)
 			if !ok {
@@ -489,6 +564,14 @@ func runC04Strip(c *Ctx, rule string) {
 			}
 			eq, okc := isKindPtrOf(iff.Cond, ph)
 			onTrue := ee[0].Succs[0] == ee[1]
+			// `if v.IsNil() { return reflect.Value{} }` inside the loop: the zero Value is exactly what Elem() of a
+			// nil pointer yields, so this exit hands back the stripped value too
+			if nc, isCall := iff.Cond.(*ssa.Call); isCall && onTrue && calleeName(&nc.Call) == "(reflect.Value).IsNil" && nc.Call.Args[0] == ssa.Value(ph) {
+				if r, ok := ee[1].Instrs[len(ee[1].Instrs)-1].(*ssa.Return); ok && len(r.Results) == 1 && isZeroReflectValue(r.Results[0]) {
+					zeroExit[ee[1]] = true
+					continue
+				}
+			}
 			if !okc || eq == onTrue {
 				bad = append(bad, "the stripping loop can be left while the value is still of kind Ptr (exit at "+p.Pos(iff.Pos())+"): a nil pointer at the end of the chain is returned as a pointer instead of the invalid Value")
 			}
@@ -515,6 +598,9 @@ func runC04Strip(c *Ctx, rule string) {
 		// returns the carried value
 		for _, b := range fn.Blocks {
 			if r, ok := b.Instrs[len(b.Instrs)-1].(*ssa.Return); ok {
+				if zeroExit[b] {
+					continue
+				}
 				if len(r.Results) != 1 || r.Results[0] != ph {
 					bad = append(bad, "the value returned is not the stripped value")
 				}
